@@ -38,6 +38,7 @@ CHECKS.update({
  'C14': A("The real EstimationModel / Parameters code with symbolic standard deviations whose signs decide the enable bits (bias, walk, noise fork on every path; scale-misalignment masks enumerated): dimensions of states/P/F/G/H/J/q/v mutually consistent, P = diag(sd^2), q and G map enabled walks to their bias states, state names = the simulator's parameter-table columns, output_matrix(r) x = (T-I) r + b, estimates accumulate, correct_increments undoes the noise-free simulated error for irregular stamps (both DataFrame and Series forms), coefficients of the random draws = noise/sqrt(dt), noise sqrt(dt), walk sqrt(dt); walk without bias raises.", "DESIGN.md 5/C14"),
  'C04': A("Bivariate jets (error scale eps, time step t) through two runs of the real kernel step, the real system_matrices and propagate_errors: for every unit direction of the 9 (7) error states and 6 sensor errors and each of 15 state components, the eps^1 t^1 coefficient of correct_pva(INS(t), eps x(t)) - truth(t) is identically zero for the velocity/gyro/accel columns and the position/attitude rows of the attitude columns, equals exactly (Omega_n x phi) x V in the velocity rows of the attitude columns, and vanishes at V = 0 for the position columns except d(gravity)/d(latitude) in [DV3, DR1] which is bounded; no-altitude mode under vertical equilibrium of the specific force; propagate_errors = one trapezoidal step of that model. Velocity-proportional residuals of the position columns are reported, not decided.", "DESIGN.md 5/C04"),
  'C01': A("Claimed as local consistency: the real compute_increments_from_imu (rate and increment sensors, samples of linear-in-time signals) followed by one step of the real kernel from a fully symbolic state, with the sampling interval a formal parameter: order 0 reproduces the state, and the t^1 coefficients satisfy Newton's law in the Earth-fixed frame - position kinematics, velocity dynamics with specific force, gravity and the Coriolis term, attitude kinematics with Earth rate - written with the library's geodesy functions and symbolic ellipsoid constants. Consistency + stability => convergence is cited (Dahlquist/Lax); finite-interval error ratios are outside.", "DESIGN.md 5/C01"),
+ 'C03': A("generate_imu with scipy's splines idealised as exact interpolants of an arbitrary smooth motion (time-jets per row), decomposed at the scipy boundary: position nodes = inertial position R_z(W t) lla_to_ecef(lla), gravitation array, attitude nodes = R_z(W t) C_en C_nb, readings = C_ib^T (inertial acceleration - gravitation) and vee(C_ib^T C_ib'), returned velocity, Hermite node derivatives, a rotating-frame kinematics glue lemma over a free curve, a body at rest senses Earth rate and the reaction to gravity, and the closed-form increment integrals of _compute_increment_readings (gyro through dt^4, accel through dt^3). Position-only and position+velocity forms, rate sensors; the initial-position form and the increment-type wiring of spline coefficients are stated as not covered.", "DESIGN.md 5/C03"),
 })
 
 NA = {
